@@ -1167,7 +1167,7 @@ def setup_check_par(eng):
         p = cur()
         tg = tg_of(env_)
         return common(p, env_) + [
-            ('C05', isinstance(tg.attrs['pickled_exprs'], Pickled) and
+            ('C05+C13', isinstance(tg.attrs['pickled_exprs'], Pickled) and
              tg.attrs['pickled_exprs'].payload is tg.attrs['exprs']),
             ('C16', z3.Not(sym.zbool(flag().state))),
             ('C16', z3.Or(z3.Not(sym.zbool(p.ghost['par_adopted'])),
@@ -1225,7 +1225,7 @@ def setup_check_par(eng):
                 sym.zbool(g['written']) == sym.zbool(g['written0'])))),
             ('C05', z3.Implies(skip, sym.zbool(g['written']))),
             ('C05', FLAT(g['B_batch'].term) == g['last0']),
-            ('C05', isinstance(tg.attrs['pickled_exprs'], Pickled) and
+            ('C05+C13', isinstance(tg.attrs['pickled_exprs'], Pickled) and
              tg.attrs['pickled_exprs'].payload is ex),
         ]
 
@@ -1463,7 +1463,7 @@ def make_run_tg_next(parallel):
             return t.exprs.payload if isinstance(t.exprs, Pickled) \
                 else t.exprs
 
-        p.oblige(f'C05/{N}/task-carries-current-input', base_of(t1) is exprs)
+        p.oblige(f'C05+C13/{N}/task-carries-current-input', base_of(t1) is exprs)
         # adoption: update() replaces the base of all later tasks
         new = [a, c]
         eng.call(eng.getattr(tg, 'stop'), [], {})
@@ -1477,7 +1477,7 @@ def make_run_tg_next(parallel):
         # the new input, with identities re-established (C13: nodes that
         # were already unique - all of them here - keep their identity)
         b2 = base_of(t2)
-        p.oblige(f'C05/{N}/task-after-update-carries-new-input',
+        p.oblige(f'C05+C13/{N}/task-after-update-carries-new-input',
                  b2 is tg.attrs['exprs'] and isinstance(b2, list) and
                  len(b2) == 2 and b2[0] is a and b2[1] is c and t2.id == 1,
                  info={'signature': 'task generated after update() still '
@@ -1706,12 +1706,21 @@ class FileModel:
 FileModel.__module__ = 'contracts.strategies'
 
 
+def file_size(f):
+    """os.path.getsize: an arbitrary size; a file that a reduction was
+    derived from is not empty (an empty text has no expression to reduce)."""
+    p = cur()
+    v = p.fresh_int('size')
+    p.assume(v >= (1 if force(f) == '<infile>' else 0))
+    return SNum(v)
+
+
 def setup_cli(eng):
     install_dd_env(eng)
     import os as real_os
     osm = env.ModelNS()
     osm.path = types.SimpleNamespace(
-        isfile=lambda f: True, getsize=lambda f: 10,
+        isfile=lambda f: True, getsize=file_size,
         join=real_os.path.join, splitext=real_os.path.splitext,
         dirname=real_os.path.dirname, abspath=real_os.path.abspath)
     osm.access = lambda f, m: True
@@ -1723,8 +1732,10 @@ def setup_cli(eng):
         return FileModel(name, mode)
 
     eng.native_handlers[open] = open_
-    # only used for the statistics printed at the end
-    eng.overrides['ddsmt.nodes.count_exprs'] = lambda e, x: 5
+    # the statistics printed at the end compute with these: arbitrary
+    # numbers (count_exprs: non-negative, from install_dd_env; an input
+    # without any s-expression has none), and the messages are built
+    eng.eval_log_args = True
 
 
 def make_run_cli(strategy):
@@ -1875,13 +1886,15 @@ def make_run_usage(with_cc):
         def access(f, mode):
             if force(mode) != 1:
                 raise Unsupported('os.access: only X_OK is modelled')
-            # the x bit of something that is not there is not set
-            return SBool(z3.And(fact(f, 'isfile'), fact(f, 'xbit')))
+            # the x bit says nothing about what kind of thing the path is:
+            # a (searchable) directory has it too - 'regular file' is a
+            # separate question (os.path.isfile)
+            return SBool(fact(f, 'xbit'))
 
         import os as real_os
         osm = env.ModelNS()
         osm.path = types.SimpleNamespace(
-            isfile=isfile, getsize=lambda f: 10, join=real_os.path.join,
+            isfile=isfile, getsize=file_size, join=real_os.path.join,
             splitext=real_os.path.splitext, dirname=real_os.path.dirname,
             abspath=real_os.path.abspath)
         osm.access = access
@@ -2011,6 +2024,8 @@ names = {{'<infile>': 'in.smt2', '/bin/cmd': 'cmd.sh', '/bin/cc': 'cc.sh'}}
 for k, (isfile, xbit, runnable) in A['layout'].items():
     f = os.path.join(d, names[k])
     if not isfile:
+        if xbit and k != '<infile>':
+            os.mkdir(f)  # something with the x bit that is no regular file
         continue
     with open(f, 'w') as h:
         h.write('(assert true)\\n' if k == '<infile>'
